@@ -75,6 +75,15 @@ def check(repo: Repo, run: Run) -> None:
         return any(lr.id in c.loops and c.func == T("attr", (reader, "read")) for c in rec.calls) or \
             any(lr.id in r.loops for r in rec.returns if r.kind in ("yield", "yield_from"))
     loops = [lr for lr in rec.loops.values() if lr.kind in ("while", "for") and (lr.func.endswith("parse_v2") or _active(lr))]
+    piped = [c for c in rec.calls if ((c.func.op == "global" and c.func.a[0].split(".")[0] in ("itertools", "functools"))
+                                      or c.func in (T("builtin", ("map",)), T("builtin", ("iter",)), T("builtin", ("filter",))))
+             and any(sym.contains(a, reader) for a in c.args)]
+    if piped and not [c for c in rec.calls if c.func == T("attr", (reader, "read"))]:
+        # the records are drawn through library iterators (iter(partial(read, 64), b''), takewhile(bool, map(read, repeat(64)))):
+        # one read per record and the empty-read exit are then properties of those iterators, not of a loop of this method
+        run.floor_failures.append(f"C02/R1: parse_v2 reads the records through {sym.pretty(piped[0].func)}(...): the read-per-record "
+                                  f"scheme is not decided")
+        return
     run.ob("R1", MOD, "KdBufParser.parse_v2", "one record loop", len(loops) == 1,
            f"parse_v2 has {len(loops)} loops; the property's structure is one read-64-bytes loop", line=fn.lineno)
     if len(loops) != 1:
@@ -254,6 +263,26 @@ def check(repo: Repo, run: Run) -> None:
                                   f"how the shared tables are cleared and filled is not decided")
     loops = [lr for lr in srec.loops.values() if lr.kind == "for" and lr.iter == tmap]
     ok_loop = len(loops) == 1
+    if not ok_loop and not handed_over:
+        # the tables are filled from a list of the parser's own that the method builds out of the thread map first
+        via = [lr for lr in srec.loops.values() if lr.kind == "for" and lr.iter is not None and sym.root_of(lr.iter) == SELF
+               and any(e.kind == "sub-store" and lr.id in e.loops for e in srec.effects)]
+        if via:
+            lst = via[0].iter
+            grows = [e for e in srec.effects if e.kind == "mut-call" and e.key in ("extend", "append", "insert") and (e.path or e.base) == lst
+                     and via[0].id not in e.loops]
+            resets = [e for e in srec.effects if (e.kind == "mut-call" and e.key == "clear" and (e.path or e.base) == lst)
+                      or (e.kind == "attr-store" and T("attr", ((e.path or e.base), e.key)) == lst)
+                      or (e.kind == "sub-store" and (e.path or e.base) == lst and e.key.op == "sliceidx")]
+            if grows and not resets:
+                run.ob("R4", MOD, "KdBufParser.set_thread_map", "the tables are filled from this dump's thread map only", False,
+                       f"set_thread_map fills the tables from {sym.pretty(lst)}, a list it only ever extends: the entries of every "
+                       f"thread map this parser object has read are written back after the tables were cleared", line=sfn.lineno,
+                       witness="two dumps parsed with one KdBufParser object; the first names a thread the second does not")
+            else:
+                run.floor_failures.append(f"C02/R4: set_thread_map fills the tables from {sym.pretty(lst)[:40]}, which it builds from the "
+                                          f"thread map first: whether every entry arrives, once and in order, is not decided")
+            handed_over = via
     if not handed_over:
         run.ob("R4", MOD, "KdBufParser.set_thread_map", "one pass over the entries in order", ok_loop,
                "set_thread_map does not iterate over the given thread map exactly once in order (reversed/sorted/filtered)",
